@@ -52,6 +52,10 @@ func c11Corpus(tier string) []gram.Seed {
 			out = append(out, gram.Seed{Name: fmt.Sprint("S2-", i), Text: g.Text()})
 		}
 	}
+	// token names that differ only in letter case, digits or underscores (a comparator that is not a total order
+	// leaves them in map order), none of them used by a syntax rule
+	out = append(out, gram.Seed{Name: "case-colliding-names", Text: "kwIf : 'a' ;\nkwif : 'b' ;\nkwIF : 'c' ;\nt1 : 'd' ;\nt01 : 'e' ;\na_b : 'f' ;\na__b : 'g' ;\naB : 'h' ;\nab : 'i' ;\nS : \"x\" S | \"y\" ;\n"},
+		gram.Seed{Name: "case-colliding-lexer-only", Text: "kwIf : 'a' ;\nkwif : 'b' ;\nkwIF : 'c' ;\n!wS : ' ' ;\n!ws : '\\t' ;\n"})
 	for i, g := range gram.L6() {
 		out = append(out, gram.Seed{Name: fmt.Sprint("L6-", i), Text: g.Text()})
 	}
